@@ -118,6 +118,21 @@ def _through(entry, name, fields):
 
             ns, _, nme = name.rpartition("/")
             d = schema_to_descriptor({"type": "record", "namespace": ns.replace("/", "."), "name": nme, "fields": [{"name": f, "type": ["string", "null"]} for _, f in fields]})
+        elif entry == "grouped_api":
+            from flow.record import GroupedRecord
+
+            g = GroupedRecord(name, [RecordDescriptor("c06/member", [("string", "s")])(s="x")])
+            d = "grouped"  # (accepted: the group exists; its flat descriptor is looked at by the caller)
+            g._desc
+        elif entry == "grouped_stream":
+            import msgpack
+
+            M = RecordDescriptor("c06/member", [("string", "s")])
+            p = RecordPacker()
+            p.register(M)
+            blob = msgpack.packb(msgpack.ExtType(14, msgpack.packb((0x12, (name, [[list(M.identifier), ["x", None, None, None, 1]]])), use_bin_type=True, unicode_errors="surrogateescape")), use_bin_type=True)
+            g = p.unpack(blob)
+            d = "grouped"
         else:
             raise KeyError(entry)
         return True, d
@@ -137,7 +152,7 @@ def c06_definition(entry, name, fields):
     for text in cap.texts:
         if not expect:
             bad.append("text of a definition outside the grammar reached exec")
-    if accepted and expect:
+    if accepted and expect and not entry.startswith("grouped"):
         want = [f for _, f in fields] + RESERVED
         if list(res.recordType.__slots__) != list(dict.fromkeys(want)):
             bad.append(f"slots {res.recordType.__slots__} != declared + reserved")
@@ -150,6 +165,27 @@ def c06_definition(entry, name, fields):
     out["problems"] = bad
     out["violates"] = bool(bad)
     return out
+
+
+def c06_history(legit, crafted):
+    """a stream whose second descriptor frame has the same name and unseparated field text as the first (legitimate) one but other fields / types"""
+    import struct
+
+    import msgpack
+
+    from flow.record.stream import RecordStreamReader
+
+    def frame(fields):
+        body = msgpack.packb(msgpack.ExtType(14, msgpack.packb([2, ["c06/t", [list(f) for f in fields]]], use_bin_type=True)), use_bin_type=True)
+        return struct.pack(">I", len(body)) + body
+
+    header = msgpack.packb(b"RECORDSTREAM\n", use_bin_type=True)
+    data = struct.pack(">I", len(header)) + header + frame(legit) + frame(crafted)
+    try:
+        out = list(RecordStreamReader(io.BytesIO(data)))
+    except Exception as e:
+        return {"violates": False, "outcome": f"rejected: {type(e).__name__}"}
+    return {"violates": True, "detail": f"the crafted definition {crafted} was accepted without an error (the reader yielded {out!r})"}
 
 
 def c06_definition_literal(entry, name, fields, literal=True):
@@ -197,4 +233,4 @@ def c06_hostile(seed, n):
     return {"violates": False, "cases": cases}
 
 
-CALLS = {"c06_eval": c06_eval, "c06_field_name": c06_field_name, "c06_fieldtype": c06_fieldtype, "c06_definition": c06_definition, "c06_definition_literal": c06_definition_literal, "c06_hostile": c06_hostile}
+CALLS = {"c06_history": c06_history, "c06_eval": c06_eval, "c06_field_name": c06_field_name, "c06_fieldtype": c06_fieldtype, "c06_definition": c06_definition, "c06_definition_literal": c06_definition_literal, "c06_hostile": c06_hostile}
